@@ -393,6 +393,15 @@ func vfC07Scenarios(thorough bool) []*vfGWScenario {
 			Alphabet: []string{"hb", "sub:a:u", "sub:b:u", "sub:c:u", "score:a:1", "score:c:0", "graft:a:u", "prune:b:t", "leave:u", "join:u", "leave:t", "join:t"},
 			Depth:    d, DevKinds: []string{"peers"}, DevEvents: []string{"hb", "join"}, DevMax: 6})
 	}
+	// S3c': relay references next to subscriptions, on two topics: a mesh exists exactly while the topic has a
+	// subscription or a relay reference of its own, whatever the node holds on the other topic
+	{
+		p3 := []vfPeerCfg{{Name: "a", Proto: "v11", IP: "10.0.0.1"}, {Name: "b", Proto: "v12", IP: "10.0.0.2"}, {Name: "c", Proto: "v11", IP: "10.0.0.3"}}
+		pre := append(connAll(p3, true), "sub:a:u", "sub:b:u")
+		out = append(out, &vfGWScenario{Name: "relay-two-topics", Cfg: vfGWCfg{Router: "gossip", Peers: p3, Topics: []string{"t", "u"}, Params: "d2", Scoring: true, Prefix: pre},
+			Alphabet: []string{"join:t", "leave:t", "relay:t", "unrelay:t", "join:u", "leave:u", "relay:u", "unrelay:u", "hb"},
+			Depth:    d, DevKinds: []string{"peers"}, DevEvents: []string{"hb", "join"}, DevMax: 6})
+	}
 	// S3d: fanout -> join promotion, including a fanout entry that has run empty (peers left, unsubscribed or
 	// fell below the publish threshold) and one that has expired
 	{
